@@ -277,10 +277,60 @@ def check_case(ctx, case):
         ctx.nontrivial(case, sample=case)
 
 
+def check_concurrent_hooks(ctx, case):
+    """Two threads change the hook lists of one application at the same time (add / remove): every hook whose add_hook() returned and that was
+    not removed runs exactly once for the next request, every removed one never (every single-preemption schedule of either thread)."""
+    import ombott
+    from vlib.sched import Scheduler, BIG
+    from checks.c08_threads import relevant
+    ops = case['ops']
+
+    def run(schedule):
+        app = ombott.Ombott()
+        log = []
+        hooks = {name: (lambda name=name: log.append(name)) for name in ('pre0', 'pre1', 'a', 'b')}
+        app.add_hook(case['event'], hooks['pre0'])
+        app.add_hook(case['event'], hooks['pre1'])
+        app.route('/x', callback=lambda: 'x')
+
+        def fn(op):
+            def f():
+                if op[0] == 'add':
+                    app.add_hook(case['event'], hooks[op[1]])
+                else:
+                    app.remove_hook(case['event'], hooks[op[1]])
+            return f
+        sc = Scheduler([fn(ops[0]), fn(ops[1])], schedule, relevant)
+        sc.run()
+        for e in sc.errors:
+            if e is not None:
+                raise CheckFailure(f'thread raised {fmt_exc(e)} under schedule {schedule}')
+        r = call_app(app, make_environ('GET', '/x'))
+        validate(r, f'after concurrent hook edits {ops}')
+        want = {'pre0', 'pre1'}
+        for op in ops:
+            (want.add if op[0] == 'add' else want.discard)(op[1])
+        if sorted(log) != sorted(want):
+            raise CheckFailure(f'{case["event"]} hooks after the concurrent edits {ops} under schedule {schedule}: ran {sorted(log)}, registered are {sorted(want)} (each once)')
+        ctx.evals += 1
+        ctx.nontrivial('hooks:' + repr((case['event'], ops, schedule)))
+        return sc.yields
+    y = run([[0, BIG], [1, BIG]])
+    for k in range(0, y[0] + 1):
+        run([[0, k], [1, BIG], [0, BIG]])
+    for k in range(0, y[1] + 1):
+        run([[1, k], [0, BIG], [1, BIG]])
+    ctx.count('concurrent_hook_edit_schedules', y[0] + y[1] + 2)
+
+
 def run(ctx):
     for name, case in load_corpus(ID):
-        ctx.guarded(check_case, case)
+        ctx.guarded(check_concurrent_hooks if 'event' in case else check_case, case)
         ctx.count('corpus')
+    if ctx.shard == 0:
+        for event in ('before_request', 'after_request'):
+            for ops in ([['add', 'a'], ['add', 'b']], [['add', 'a'], ['remove', 'pre0']], [['remove', 'pre0'], ['remove', 'pre1']]):
+                ctx.guarded(check_concurrent_hooks, {'event': event, 'ops': ops})
     if ctx.shard == 0:
         # matrix: every outcome kind x GET/HEAD x bodiless statuses
         base = {'target': 'hit', 'resp_headers': [], 'cookies': [], 'explicit_cl': None, 'before': [], 'after': 1, 'handlers': {}, 'file_wrapper': False}
@@ -320,6 +370,18 @@ def run(ctx):
                         ctx.guarded(check_case, dict(base, out={'k': 'resp', 'cls': 'HTTPResponse', 'status': rs, 'body': out, 'how': 'return', 'headers': [], 'shared': False},
                                                      method=method, resp_status=None, file_wrapper=fw))
         ctx.count('failing_close_grid')
+        # iterables of bytes-like items that are not bytes (unsupported item types): one well-formed response, chunks are bytes, the iterable is closed
+        for typ in ('bytearray', 'memoryview'):
+            for its in (['a'], ['a', 'bc'], ['', 'a', 'b'], ['', '']):
+                for k in ('list', 'gen', 'iterobj'):
+                    for method in ('GET', 'HEAD'):
+                        out = {'type': typ, 'items': its, 'k': k}
+                        if k != 'list':
+                            out['raise_at'] = None
+                        if k == 'iterobj':
+                            out['has_close'] = True
+                        ctx.guarded(check_case, dict(base, out=out, method=method, resp_status=None))
+        ctx.count('bytes_like_items_grid')
         # error-handler chains: every pair of handler kinds for (the status that occurs, 500)
         kinds = ['str', 'bytes', 'gen', 'raise', 'empty', 'http_response', 'error_again']
         for target, code in (('miss', '404'), ('wrongverb', '405')):
@@ -335,4 +397,6 @@ def run(ctx):
 
 
 def replay(ctx, case):
+    if 'event' in case:
+        return check_concurrent_hooks(ctx, case)
     check_case(ctx, case)
